@@ -254,3 +254,89 @@ def config_violations(pr, ck, xyz, data, c, v, f, na, tdm):
     if cfg.h5_vectors_every != gate and not (gate is None and not cfg.h5_vectors_every):
         bad.append("vector gate %r, smallest positive vector cadence %r" % (cfg.h5_vectors_every, gate))
     return bad
+
+
+def _na_dyn(writer, step_offset, nstates=2):
+    """a SurfaceHoppingDynamics object reduced to what the real _do_integrator_step needs: electronic structure, coupling,
+    propagation and hop logic are no-ops, the nuclear update and the output gate are the real code"""
+    import types
+    import torch
+    import seqm.NonadiabaticDynamics as ND
+
+    d = ND.SurfaceHoppingDynamics.__new__(ND.SurfaceHoppingDynamics)
+    d.timestep = 0.5
+    d.damp = None
+    d.step_offset = step_offset
+    d._tdc_method = "hamiltonian_fd"
+    d._cache_prev_cis_amp = False
+    d._electronic_substeps = 1
+    en = torch.tensor([[1.0, 2.0]])
+    nd = torch.zeros(1, nstates, nstates)
+    d._cache_old = {"energies": en.clone(), "nac_dot": nd.clone()}
+    d._cache_new = None
+
+    def ces(molecule, learned_parameters, **k):
+        d._cache_new = {"energies": en.clone(), "nac_dot": nd.clone()}
+        return en
+
+    d._compute_electronic_structure = ces
+    d.post_hop_holdoff = torch.zeros(1, dtype=torch.int64)
+    d._detect_crossings = lambda a, b: None
+    d._propagate_electronic = lambda *a, **k: None
+    d._after_electronic_update = lambda *a, **k: None
+    d._h5_writer = writer
+    d._coeffs_complex = lambda: torch.ones(1, nstates, dtype=torch.complex128)
+    d._active_states = torch.zeros(1, dtype=torch.long)
+    mol = types.SimpleNamespace(velocities=torch.zeros(1, 2, 3), acc=torch.zeros(1, 2, 3), coordinates=torch.zeros(1, 2, 3), force=torch.zeros(1, 2, 3), mass_inverse=torch.ones(1, 2, 1), w=None)
+    return d, mol
+
+
+def na_stream_violations(na, data, step_offset, steps, nexc=2):
+    """nonadiabatic stream through the real integrator-step gate + real HDF5Writer (fake h5py): a run to `step_offset`,
+    re-opened there with resume=True and continued to `steps`, must hold the initial snapshot plus exactly the multiples of
+    the nonadiabatic cadence, in order, with absolute labels and no unwritten rows"""
+    import torch
+    import seqm.MolecularDynamics as MD
+
+    M.install()
+    M.ST.reset()
+    h5 = {"nonadiabatic": na}
+    if data:
+        h5["data"] = data
+    cfg = MD.OutputConfig.from_dict({"molid": [0], "prefix": "/mem/n", "print every": 0, "checkpoint every": 0, "xyz": 0, "h5": h5})
+    mol, p = M.make_molecule(1)
+    mol.nocc = torch.tensor([1])
+    w1 = MD.HDF5Writer(cfg, p, 0.5)
+    w1.open(mol, "/mem/n", steps, excited_states=nexc, resume=False, step_offset=0, include_initial=True)
+    d, m = _na_dyn(w1, 0, nexc)
+    if na > 0:
+        w1.append_nonadiabatic(0, active_states=d._active_states + 1, amplitudes=d._coeffs_complex(), nac_dot=d._cache_old["nac_dot"])  # what initialize() does at step 0
+    for i in range(0, step_offset):
+        d._do_integrator_step(i, m, {})
+    w1.close()
+    if step_offset > 0:
+        w2 = MD.HDF5Writer(cfg, p, 0.5)
+        try:
+            w2.open(mol, "/mem/n", steps, excited_states=nexc, resume=True, step_offset=step_offset, include_initial=False)
+        except RuntimeError as e:
+            return ["resume refused: %s" % e]
+        d, m = _na_dyn(w2, step_offset, nexc)
+        for i in range(step_offset, steps):
+            d._do_integrator_step(i, m, {})
+        w2.close()
+    else:
+        pass
+    h5c, _, caps = M.snapshot()
+    content = dict(h5c.get("/mem/n.0.h5", {}))
+    content.update(M.ST.h5_buffer.get("/mem/n.0.h5", {}))
+    cap = (caps.get("/mem/n.0.h5", {}).get("data/nonadiabatic/steps") or (0,))[0]
+    rows = dict(M.rows_of(content, "data/nonadiabatic"))
+    got = [rows.get(r) for r in range(cap)]
+    if na <= 0:
+        return [] if not rows else ["nonadiabatic cadence 0 but rows %r exist" % got]
+    if step_offset == 0:
+        return [] if got[:1] == [0] and all(g is None for g in got[1:]) else ["nonadiabatic steps %r after initialisation, expected the step-0 snapshot only" % got]
+    exp = M.expected_steps(na, steps)
+    if got != exp:
+        return ["nonadiabatic steps %r after a run to step %d resumed and continued to %d (None = unwritten row), expected %r" % (got, step_offset, steps, exp)]
+    return []
